@@ -82,15 +82,25 @@ def twitterStep (url : Str) : Except Err Step :=
     | none => .ok (.done none)                       -- except ValueError: return None
     | some parsed => twitterRoute (pathsplit parsed.path) parsed.fragment
 
-/-- twitter.py:63-106; `limit` = nested self-calls the interpreter stack still allows -/
+/-- the self-call of twitter.py:104 is the last thing the function does: running the function
+is "run one activation; return what it returns, or start again on the url it asks for", at
+most `limit` times over (`limit` = nested self-calls the interpreter stack still allows,
+beyond it Python raises `RecursionError`) -/
+def runSteps (step : Str → Except Err Step) : (limit : Nat) → (url : Str) → Except Err (Option Record)
+  | 0, url =>
+    match step url with
+    | .error e => .error e
+    | .ok (.done r) => .ok r
+    | .ok (.reroute _) => .error .recursionError
+  | limit' + 1, url =>
+    match step url with
+    | .error e => .error e
+    | .ok (.done r) => .ok r
+    | .ok (.reroute url') => runSteps step limit' url'
+
+/-- twitter.py:63-106 -/
 def parse_twitter_url (limit : Nat) (url : Str) : Except Err (Option Record) :=
-  match twitterStep url with
-  | .error e => .error e
-  | .ok (.done r) => .ok r
-  | .ok (.reroute url') =>
-    match limit with
-    | 0 => .error .recursionError
-    | limit' + 1 => parse_twitter_url limit' url'
+  runSteps twitterStep limit url
 
 /-- twitter.py:109-129 -/
 def extract_screen_name_from_twitter_url (limit : Nat) (url : Str) : Except Err (Option Str) :=
